@@ -28,6 +28,45 @@ def t_refmp():
     assert refmp.well_formed(body, b'B', 2)
 
 
+def t_watchdog():
+    from vf import core
+
+    def spin():
+        while True:
+            pass
+    r = core.guard(spin, 0.2)
+    assert isinstance(r, str) and r.startswith('hang'), r
+    assert core.guard(lambda: 5, 1) == 5
+
+
+def t_env_explorer():
+    # toy system: a reader that loses a byte when a read is answered with exactly 2 bytes after a 1-byte answer
+    from vf.env import EnvExplorer, ChoiceStream
+
+    def run(ex):
+        st = ChoiceStream(ex, b'abcdefg', '/nonexistent/')
+        out = b''
+        prev = None
+        while True:
+            p = st.read(3)
+            if not p:
+                break
+            if prev == 1 and len(p) == 2:
+                p = p[:1]
+            prev = len(p)
+            out += p
+        return out
+    ex = EnvExplorer(merge=False)
+    bad = [c for c, out in ex.explore(run) if out != b'abcdefg']
+    assert bad and ex.execs > 10, (bad, ex.execs)
+    ex = EnvExplorer(merge=False, bound=1)
+    assert not [c for c, out in ex.explore(run) if out != b'abcdefg']     # needs two deviations
+    ex = EnvExplorer(merge=False, bound=2)
+    assert [c for c, out in ex.explore(run) if out != b'abcdefg']
+    ex2 = EnvExplorer(merge=False)
+    assert ex2.replay(run, bad[0]) != b'abcdefg'
+
+
 def main():
     n = 0
     for k, f in sorted(globals().items()):
